@@ -127,13 +127,58 @@ pub fn drive(
         }
         m => panic!("mode must be gen or replay, got {:?}", m),
     };
+    drive_finish(&args, inputs, |inputs| inputs.iter().map(|(_, i)| run(i)).collect());
+}
+
+/// Like `drive`, but runs the cases on `threads` threads (for families whose cases are independent
+/// child processes or otherwise do not share process-global state).
+pub fn drive_par(
+    gen: impl Fn(&mut Rng, &str) -> Vec<(String, Value)>,
+    run: impl Fn(&Value) -> CaseOut + Sync,
+    threads: usize,
+) {
+    let args = parse_args();
+    std::fs::create_dir_all(&args.out).unwrap();
+    let inputs: Vec<(String, Value)> = match args.mode.as_str() {
+        "gen" => { let mut rng = Rng::new(args.seed); gen(&mut rng, &args.tier) }
+        "replay" => {
+            let txt = std::fs::read_to_string(args.case.as_ref().expect("--case")).unwrap();
+            let v: Value = serde_json::from_str(&txt).unwrap();
+            match v.get("cases") {
+                Some(Value::Array(cs)) => cs.iter().map(|c| (
+                    c["class"].as_str().unwrap_or("replay").to_string(), c["input"].clone()
+                )).collect(),
+                _ => vec![(v["class"].as_str().unwrap_or("replay").to_string(), v["input"].clone())],
+            }
+        }
+        m => panic!("mode must be gen or replay, got {:?}", m),
+    };
+    drive_finish(&args, inputs, |inputs| {
+        let n = inputs.len();
+        let next = std::sync::atomic::AtomicUsize::new(0);
+        let results: Vec<std::sync::Mutex<Option<CaseOut>>> = (0..n).map(|_| std::sync::Mutex::new(None)).collect();
+        std::thread::scope(|s| {
+            for _ in 0..threads.max(1) {
+                s.spawn(|| loop {
+                    let i = next.fetch_add(1, std::sync::atomic::Ordering::SeqCst);
+                    if i >= n { break }
+                    let out = run(&inputs[i].1);
+                    *results[i].lock().unwrap() = Some(out);
+                });
+            }
+        });
+        results.into_iter().map(|m| m.into_inner().unwrap().unwrap()).collect()
+    });
+}
+
+fn drive_finish(args: &Args, inputs: Vec<(String, Value)>, exec: impl FnOnce(&Vec<(String, Value)>) -> Vec<CaseOut>) {
+    let outs = exec(&inputs);
     let mut jl = std::io::BufWriter::new(std::fs::File::create(format!("{}/cases.jsonl", args.out)).unwrap());
     let mut cq = std::io::BufWriter::new(std::fs::File::create(format!("{}/cases.coq", args.out)).unwrap());
     let mut classes: BTreeMap<String, u64> = BTreeMap::new();
     let mut distinct = std::collections::HashSet::new();
     let mut nontrivial = 0u64;
-    for (class, input) in &inputs {
-        let out = run(input);
+    for ((class, input), out) in inputs.iter().zip(outs.into_iter()) {
         *classes.entry(class.clone()).or_default() += 1;
         if out.nontrivial && distinct.insert(out.coq.clone()) { nontrivial += 1; }
         writeln!(jl, "{}", json!({"class": class, "input": input, "impl": out.obs})).unwrap();
